@@ -455,10 +455,10 @@ def run_case(ctx, case):
                 ctx.violation("other:fault:start_version_changes_when_tag_query_fails",
                               f"{k}-th call ({label}) made to fail: update exits 0 and announces {vers}, the tags on disk say "
                               f"{versions(f)} | factors={f} argv={args}", case={"kind": "faults", "f": f})
+        if f.get("odd_name") and kind == "add" and failed["argv"][-1] == afile(f):
+            ctx.count("failed_add_of_a_file_whose_name_reads_like_a_vcs_message")
         if kind in ("add", "commit", "tag", "push", "pre-hook", "post-hook") and res.exit_code == 0:
             if True:
-                if f.get("odd_name") and kind == "add":
-                    ctx.count("failed_add_of_a_file_whose_name_reads_like_a_vcs_message")
                 ctx.violation("other:fault:exit_0_after_failed_step", f"{label} failed but exit 0 | factors={f}",
                               case={"kind": "faults", "f": f})
 
